@@ -132,18 +132,26 @@ pub(super) fn decode_publish_packet(
     })
 }
 
-pub(super) fn publish_size(src: &BytesMut, flags: u8) -> Result<Option<u32>, DecodeError> {
+/// Size of the variable header (topic, packet id).
+///
+/// The header must fit into the frame, `remaining_length` is the size
+/// of the frame as declared by the fixed header.
+pub(super) fn publish_size(
+    src: &BytesMut,
+    flags: u8,
+    remaining_length: u32,
+) -> Result<Option<u32>, DecodeError> {
+    let qos = QoS::try_from((flags & 0b0110) >> 1)?;
+    // packet-id len
+    let id_len = if qos == QoS::AtMostOnce { 0 } else { 2 };
+    ensure!(remaining_length >= 2 + id_len, DecodeError::InvalidLength);
+
     // topic len
     if src.remaining() < 2 {
         return Ok(None);
     }
-    let mut len = u32::from(u16::from_be_bytes([src[0], src[1]])) + 2;
-
-    // packet-id len
-    let qos = QoS::try_from((flags & 0b0110) >> 1)?;
-    if qos != QoS::AtMostOnce {
-        len += 2; // len of u16
-    }
+    let len = u32::from(u16::from_be_bytes([src[0], src[1]])) + 2 + id_len;
+    ensure!(len <= remaining_length, DecodeError::InvalidLength);
     Ok(Some(len))
 }
 
